@@ -283,6 +283,8 @@ def run(tier: str) -> int:
             if mine != model:
                 ck.disagree({"op": kind, "seq": [to_req(o) for o in seq]}, model, mine, "combine-observables")
 
+    if tier == "thorough":
+        ck.leanchecker()
     try:
         workflow_clause(ck, r, tier)
     except Exception as e:  # the workflow harness belongs to C01/C02/C09; its trouble is not a C03 verdict
